@@ -15,7 +15,7 @@ for name in sorted(os.listdir(os.path.join(VERIF, "seeded"))):
                        for c, v in r.get("checks", {}).items())
     rows.append((name, m["property"], (m.get("breaks") or "")[:260].replace("\n", " ").replace("|", "/"),
                  (m.get("needs_to_manifest") or "")[:260].replace("\n", " ").replace("|", "/"),
-                 "yes" if r.get("confirmed") else "NO", checks, r.get("repo_head", "")))
+                 ("yes" if r.get("confirmed") else "NO") + ((" (see history: " + m["history"][:200].replace("|", "/") + "...)") if m.get("history") else ""), checks, r.get("repo_head", "")))
 with open(os.path.join(VERIF, "seeded", "README.md"), "w") as fh:
     fh.write("# Seeded changes\n\nEach directory holds `patch.diff` (apply with `git -C /repo apply`, undo with `git -C /repo checkout -- .`), "
              "the demonstration (`demo/run_demo.sh`, run with `REPO=<tree>`; exit 0 = property holds on the scenario) and `meta.json` "
